@@ -69,6 +69,8 @@ def c05_1(c: Ctx) -> None:
             return out
 
         src = ' / '.join(sorted(origins(arg.id))) or '<unbound>'
+        # (`None` is not an event that can be processed: an initial / "nothing there" binding left behind by a folded helper is not an origin)
+        src_key = ' / '.join(sorted(o for o in origins(arg.id) if o != 'None')) or src
         # a relating test: a branch test mentioning both the local and the awaited event, that the call is control-dependent on
         related = False
         for a in [x for x in q.ancestors_of(call) if isinstance(x, (ast.If, ast.While))]:
@@ -87,7 +89,7 @@ def c05_1(c: Ctx) -> None:
         if related:
             c.ok(where(u, call), f'inline loop processes `{arg.id}` only after a test relating it to the awaited event')
         else:
-            c.fail(u, f'process_event(arg <- {src}) with no relation to the awaited event',
+            c.fail(u, f'process_event(arg <- {src_key}) with no relation to the awaited event',
                    'the in-handler await processes whatever is at the head of each queue: events queued earlier run before the awaited child (documented: child runs before any other pending event)', node=call,
                    witness=[f'{where(u, call)}: {U(call)}', f'{arg.id} <- {src}', 'no branch test relates it to the awaited event (self)'])
 
@@ -127,7 +129,9 @@ def c05_2(c: Ctx) -> None:
                 if isinstance(n_, ast.Assign) and len(n_.targets) == 1 and isinstance(n_.targets[0], ast.Name) and n_.targets[0].id in flags and isinstance(n_.value, ast.Name) and n_.value.id not in flags:
                     flags.add(n_.value.id)
                     changed_ = True
-        facts = Facts(lambda x: x in flags, cg=c.cg, unit=u)
+        # (plain locals are tracked too: a folded helper hands its result over through `__inl_ret_k = <local>`; what comes off a queue is an event, never None)
+        facts = Facts(lambda x: x in flags or x.isidentifier(), rhs_value=lambda v: 'NN' if isinstance(v, (ast.Call, ast.Await)) and call_name(v.value if isinstance(v, ast.Await) else v) in ('get', 'get_nowait') else None,
+                      cg=c.cg, unit=u)
         for n in g.nodes_of(st):
             p = q.reach_search(g, [(brn, {})], lambda x, d: x is n and d.get(flag) not in ('F', 'Fy', 'N'), facts=facts, exc_ok=lambda e: False)
             if p is None:
@@ -139,7 +143,9 @@ def c05_2(c: Ctx) -> None:
             pst = q.stmt_of(pa)
             for pn in g.nodes_of(pst):
                 gnodes = {x.id for x in g.nodes_of(guard_if, ('if',))}
-                p = q.reach_search(g, [(pn, {flag: 'F'})], lambda x, d: (x.id in gnodes or x.kind == 'exit') and d.get(flag) not in ('T', 'Ty'),
+                arg0 = pa.value.args[0] if isinstance(pa.value, ast.Call) and pa.value.args and isinstance(pa.value.args[0], ast.Name) else None
+                env0 = {flag: 'F', **({arg0.id: 'NN'} if arg0 is not None else {})}  # the event being processed is an event
+                p = q.reach_search(g, [(pn, env0)], lambda x, d: (x.id in gnodes or x.kind == 'exit') and d.get(flag) not in ('T', 'Ty'),
                                    lambda x, d: x.id in gnodes, facts=facts, exc_ok=lambda e: False, skip_exc_from=pn)
                 if p is None:
                     c.ok(where(u, pa), f'{flag} is set after every inline process_event')
@@ -149,6 +155,9 @@ def c05_2(c: Ctx) -> None:
     first_aw = [n for n in g.live_nodes() if q.node_has_await(n) and n.ast is not None and q.lexically_in(n.ast, br, 'body')]
     proc_ids = {id(q.stmt_of(a)) for a in procs} | {id(q.stmt_of(a)) for a in sleeps}
     other = [n for n in first_aw if id(n.ast) not in proc_ids]
+    # the branch is entered only with holds_global_lock true: `async with <the global lock>` there is a nested entry, which does not suspend
+    other = [n for n in other if not (n.kind in ('with', 'withexit') and isinstance(n.ast, ast.AsyncWith) and len(n.ast.items) == 1 and (t_ := c.prog.infer(n.ast.items[0].context_expr, u)) is not None
+                                      and t_.kind == 'cls' and t_.name == 'ReentrantLock' and 'holds_global_lock.get()' in U(br.test))]
     if not other:
         c.ok(where(u, br), 'no other suspension point on the inline branch')
     for n in other:
@@ -173,7 +182,7 @@ def check_no_inline_processing_after_completion(c: Ctx) -> None:
     procs = [a for a in inline_awaits(c, u, br) if isinstance(a.value, ast.Call) and is_processing_call(c, u, a.value)]
     c.floor(len(procs), 1, 'inline process_event awaits')
     atom = f'{self_}.event_completed_signal.is_set()'
-    facts = Facts(lambda a: a == atom, cg=c.cg, unit=u)
+    facts = Facts(lambda a: a == atom or a == 'holds_global_lock.get()' or a.isidentifier(), cg=c.cg, unit=u, taskvars=TASKVARS)  # (plain locals too: results of folded helpers)
     for a in procs:
         st = q.stmt_of(a)
         # paths may pass through the call itself (the loop comes back to it), so the call is not a barrier of the search
@@ -200,6 +209,23 @@ def c05_5(c: Ctx) -> None:
 
     check_runloop_only_awaits_step(c)
     c02_2(c)
+
+
+@ob('C05.6', 'DOM', 'every round of the inline loop looks at every running bus at the moment it reaches it (same obligation as C04.4): a bus left out of a round — because it was '
+    'empty when the round was planned — can have received the awaited event\'s descendant from a handler run earlier in that very round; the next round then starts with another '
+    'bus\'s unrelated event, which overtakes the descendant inside the awaiting handler')
+def c05_6(c: Ctx) -> None:
+    from .c04 import c04_4
+
+    c04_4(c)
+
+
+@ob('C05.7', 'DOM', 'the inline loop takes events from running buses only (same obligation as C16.4): the backlog a stopped bus left in its queue is not "queued work" any more, '
+    'and running it inside the awaiting handler puts handlers of unrelated, abandoned events in front of the awaited child')
+def c05_7(c: Ctx) -> None:
+    from .c16 import c16_4
+
+    c16_4(c)
 
 
 OBLIGATIONS = ob.obs
